@@ -243,8 +243,10 @@ def _run(case, res, path, idx_path):
                     continue
                 rr = common.rng_for("c11-iterable", a)
                 sel = [rr.randrange(-n, n) for _ in range(rr.randint(0, 5))]
-                arg = sel if b % 2 else tuple(sel)
-                cmp(f"f[{arg}]", outcome(lambda: obj[arg]), ("ok", [ref[i] for i in sel]))
+                form = b % 5
+                arg = [sel, tuple(sel), (i for i in sel), iter(sel), map(int, sel)][form]   # also one-shot iterables
+                cmp(f"f[{['list', 'tuple', 'generator', 'iterator', 'map'][form]} {sel}]", outcome(lambda: obj[arg]),
+                    ("ok", [ref[i] for i in sel]))
                 reads_since_it = True
             elif op == "list":
                 cmp("list(f)", outcome(lambda: list(obj)), ("ok", list(ref)), iter=True,
